@@ -12,10 +12,14 @@ class FakeHass:
         self.loop = None
         self.services = SimpleNamespace(has_service=lambda d, s: False)
         self.states = SimpleNamespace(get=lambda n: None)
+        self.config = SimpleNamespace(path=lambda f: '/nonexistent/' + f)
     async def async_add_executor_job(self, f, *a):
         return f(*a)
 
 async def run(src):
+    from custom_components.pyscript.decorator import DecoratorRegistry
+    if not hasattr(DecoratorRegistry, "_decorators"):
+        DecoratorRegistry._decorators = {}
     g = GlobalContext("test", global_sym_table={}, manager=GlobalContextMgr)
     a = AstEval("test", global_ctx=g)
     Function.install_ast_funcs(a)
